@@ -153,6 +153,27 @@ func cmdCaps(args []string) error {
 				return out
 			}
 			rec["shared"], rec["fresh"] = runSteps(true), runSteps(false)
+		case "emptyloader":
+			// {src, paths: [..] | null}: a module loader whose search list holds no usable entry (empty strings are documented as ignored)
+			// grants nothing, whatever lies in the working directory of the process
+			var paths []string
+			if ps, ok := c["paths"].([]any); ok {
+				for _, p := range ps {
+					paths = append(paths, p.(string))
+				}
+			}
+			q, err := gojq.Parse(c["src"].(string))
+			if err != nil {
+				rec["perr"] = err.Error()
+				return
+			}
+			code, err := gojq.Compile(q, gojq.WithModuleLoader(gojq.NewModuleLoader(paths)))
+			if err != nil {
+				rec["cerr"] = err.Error()
+				return
+			}
+			r := runCode(code, nil, nil, 20, time.Second)
+			rec["out"], rec["err"] = r.Out, r.Err
 		case "history":
 			// {src, input, other}: one compiled code run on input, other, input again (and on an equal copy): the outputs for input must be the same each time
 			q, err := gojq.Parse(c["src"].(string))
